@@ -1012,8 +1012,8 @@ func init() {
 
 var i9Exceptions = map[string]string{
 	"sig: / overflow by starlark.rangeValue.step": "range membership (delta / step): the quotient is only compared with 0 and the length, and only when the remainder is zero; the single wrapping case (delta = MinInt, step = -1) yields a negative quotient and the answer False, which is also the exact answer (the exact quotient 2^63 exceeds every length)",
-	"(starlark.rangeValue).contains: / overflow": "the quotient is only compared with 0 and the length, and only when the remainder is zero; the single wrapping case (delta = MinInt, step = -1) yields a negative quotient and the answer False, which is also the exact answer (the exact quotient 2^63 exceeds every length)",
-	"(lib/time.Duration).Binary: /":              "duration / int (operator /, not //): the time module defines it as Go's Duration division, which discards the sub-nanosecond part toward zero",
+	"(starlark.rangeValue).contains: / overflow":  "the quotient is only compared with 0 and the length, and only when the remainder is zero; the single wrapping case (delta = MinInt, step = -1) yields a negative quotient and the answer False, which is also the exact answer (the exact quotient 2^63 exceeds every length)",
+	"(lib/time.Duration).Binary: /":               "duration / int (operator /, not //): the time module defines it as Go's Duration division, which discards the sub-nanosecond part toward zero",
 }
 
 // onlyZeroTested: every use of v is an ==/!= comparison.
@@ -1053,8 +1053,8 @@ func exactByRemainder(q *ssa.BinOp) bool {
 			continue
 		}
 		okUse := false
-		for _, pc := range pathConds(r.Block()) {
-			cond, neg := stripNot(pc.If.Cond)
+		for _, pf := range pathFacts(r.Block()) {
+			cond, neg := pf.Cond, false
 			cb, ok := cond.(*ssa.BinOp)
 			if !ok || (cb.Op != token.EQL && cb.Op != token.NEQ) {
 				continue
@@ -1070,7 +1070,7 @@ func exactByRemainder(q *ssa.BinOp) bool {
 			if k, ok := constInt(other); !ok || k != 0 {
 				continue
 			}
-			isZero := (cb.Op == token.EQL) == (pc.Branch != neg)
+			isZero := (cb.Op == token.EQL) == (pf.Truth != neg)
 			if isZero {
 				okUse = true
 			}
@@ -1327,13 +1327,13 @@ func i9NonNeg(v ssa.Value, at *ssa.BasicBlock, depth int) string {
 					a = inner.X
 				}
 			}
-			for _, pc := range pathConds(at) {
-				cond, neg := stripNot(pc.If.Cond)
+			for _, pf := range pathFacts(at) {
+				cond, neg := pf.Cond, false
 				bo, ok := cond.(*ssa.BinOp)
 				if !ok {
 					continue
 				}
-				taken := pc.Branch != neg
+				taken := pf.Truth != neg
 				op := bo.Op
 				if !taken {
 					op = i9Neg(op)
@@ -1383,13 +1383,13 @@ func i9NonNeg(v ssa.Value, at *ssa.BasicBlock, depth int) string {
 	case *ssa.UnOp:
 		if x.Op == token.SUB {
 			// -v where a dominating test shows v < 0 (or v <= 0)
-			for _, pc := range pathConds(at) {
-				cond, neg := stripNot(pc.If.Cond)
+			for _, pf := range pathFacts(at) {
+				cond, neg := pf.Cond, false
 				bo, ok := cond.(*ssa.BinOp)
 				if !ok {
 					continue
 				}
-				taken := pc.Branch != neg
+				taken := pf.Truth != neg
 				op := bo.Op
 				var k int64
 				var okk bool
@@ -1422,13 +1422,13 @@ func i9NonNeg(v ssa.Value, at *ssa.BasicBlock, depth int) string {
 		}
 	}
 	// dominating sign test: v >= 0, v > 0, 0 <= v, !(v < 0)
-	for _, pc := range pathConds(at) {
-		cond, neg := stripNot(pc.If.Cond)
+	for _, pf := range pathFacts(at) {
+		cond, neg := pf.Cond, false
 		bo, ok := cond.(*ssa.BinOp)
 		if !ok {
 			continue
 		}
-		taken := pc.Branch != neg
+		taken := pf.Truth != neg
 		var op token.Token
 		var k int64
 		var haveK bool
@@ -1551,8 +1551,8 @@ func floorAdjusted(bo *ssa.BinOp) bool {
 		if !ok || (adj.Op != token.ADD && adj.Op != token.SUB) || !(related[adj.X] || related[adj.Y]) {
 			return
 		}
-		for _, pc := range pathConds(adj.Block()) {
-			cond, _ := stripNot(pc.If.Cond)
+		for _, pf := range pathFacts(adj.Block()) {
+			cond, _ := pf.Cond, false
 			if cb, ok := cond.(*ssa.BinOp); ok {
 				switch cb.Op {
 				case token.LSS, token.GTR, token.LEQ, token.GEQ, token.NEQ, token.EQL:
@@ -1782,8 +1782,8 @@ func ruleO12(c *Ctx) {
 			}
 			// does a dominating condition read r.options.X ?
 			optDep := ""
-			for _, pc := range pathConds(call.Block()) {
-				if f := readsOptionsField(pc.If.Cond, 0); f != "" {
+			for _, pf := range pathFacts(call.Block()) {
+				if f := readsOptionsField(pf.Cond, 0); f != "" {
 					optDep = f
 				}
 			}
@@ -1793,9 +1793,9 @@ func ruleO12(c *Ctx) {
 			k2 := fmt.Sprintf("%s: error under option %s", fnName(fn), optDep)
 			underUni := false
 			if uni != nil {
-				for _, pc := range pathConds(call.Block()) {
-					cond, neg := stripNot(pc.If.Cond)
-					if cond == ssa.Value(uni) && pc.Branch != neg {
+				for _, pf := range pathFacts(call.Block()) {
+					cond, neg := pf.Cond, false
+					if cond == ssa.Value(uni) && pf.Truth != neg {
 						underUni = true
 					}
 				}
@@ -1943,8 +1943,8 @@ func n10Justify(c *Ctx, fn *ssa.Function, ta *ssa.TypeAssert) string {
 		}
 	}
 	// (d) dominating successful comma-ok assertion / type switch arm on the same value for the same type
-	for _, pc := range pathConds(ta.Block()) {
-		cond, neg := stripNot(pc.If.Cond)
+	for _, pf := range pathFacts(ta.Block()) {
+		cond, neg := pf.Cond, false
 		ex, ok := cond.(*ssa.Extract)
 		if !ok || ex.Index != 1 {
 			continue
@@ -1953,7 +1953,7 @@ func n10Justify(c *Ctx, fn *ssa.Function, ta *ssa.TypeAssert) string {
 		if !ok || !ta2.CommaOk {
 			continue
 		}
-		if pc.Branch == neg {
+		if pf.Truth == neg {
 			continue // failure edge
 		}
 		if sameOperand(ta2.X, x) || sameTraceRoot(ta2.X, x) {
@@ -3183,9 +3183,8 @@ func i2Small(v ssa.Value, at *ssa.BasicBlock, depth int) string {
 		}
 	}
 	lower, upper := false, false
-	for _, pc := range pathConds(at) {
-		cond, neg := stripNot(pc.If.Cond)
-		taken := pc.Branch != neg
+	for _, pf := range pathFacts(at) {
+		cond, taken := pf.Cond, pf.Truth
 		if call, ok := cond.(*ssa.Call); ok && recvOfInt64 != nil {
 			if cal := call.Call.StaticCallee(); cal != nil && cal.Name() == "isSmall" && len(call.Call.Args) == 1 && call.Call.Args[0] == recvOfInt64 && taken {
 				return "under isSmall of the same big.Int"
@@ -3513,9 +3512,9 @@ func ruleJ5(c *Ctx) {
 				}
 				// the guarding predicate: a dominating call of a func(string) bool on the quoted string
 				var pred *ssa.Function
-				for _, pc := range pathConds(call.Block()) {
-					cond, neg := stripNot(pc.If.Cond)
-					if pcall, ok := cond.(*ssa.Call); ok && pc.Branch != neg {
+				for _, pf := range pathFacts(call.Block()) {
+					cond, neg := pf.Cond, false
+					if pcall, ok := cond.(*ssa.Call); ok && pf.Truth != neg {
 						if pf := pcall.Call.StaticCallee(); pf != nil && pf.Blocks != nil && len(pf.Params) == 1 {
 							pred = pf
 						}
@@ -3718,8 +3717,8 @@ func ruleO13(c *Ctx) {
 		key := fnName(fn)
 		bad := ""
 		notParenAt := func(v ssa.Value, b *ssa.BasicBlock) bool {
-			for _, pc := range pathConds(b) {
-				cond, neg := stripNot(pc.If.Cond)
+			for _, pf := range pathFacts(b) {
+				cond, neg := pf.Cond, false
 				ex, ok := cond.(*ssa.Extract)
 				if !ok || ex.Index != 1 {
 					continue
@@ -3734,7 +3733,7 @@ func ruleO13(c *Ctx) {
 						isParen = true
 					}
 				}
-				if isParen && pc.Branch == neg { // failure edge of the test
+				if isParen && pf.Truth == neg { // failure edge of the test
 					return true
 				}
 			}
@@ -3902,8 +3901,8 @@ func ruleF8(c *Ctx) {
 				return why
 			}
 			bad := ""
-			for _, pc := range pathConds(in.Block()) {
-				if w := dependsOnElem(pc.If.Cond); w != "" {
+			for _, pf := range pathFacts(in.Block()) {
+				if w := dependsOnElem(pf.Cond); w != "" {
 					bad = w
 				}
 			}
@@ -4102,9 +4101,9 @@ func ruleO14(c *Ctx) {
 					key = fmt.Sprintf("%s #%d", base, ord[base])
 				}
 				bad := ""
-				for _, pc := range pathConds(b) {
+				for _, pf := range pathFacts(b) {
 					others := map[string]bool{}
-					optionsRead(pc.If.Cond, 0, others)
+					optionsRead(pf.Cond, 0, others)
 					for o := range others {
 						if o != opt {
 							pair := opt + " under " + o
@@ -4294,9 +4293,9 @@ func ruleJ6(c *Ctx) {
 				return
 			}
 			if cal := call.Call.StaticCallee(); cal != nil && cal.String() == "encoding/json.Unmarshal" {
-				for _, pc := range pathConds(call.Block()) {
-					cond, neg := stripNot(pc.If.Cond)
-					if pc.Branch != neg {
+				for _, pf := range pathFacts(call.Block()) {
+					cond, neg := pf.Cond, false
+					if pf.Truth != neg {
 						continue
 					}
 					switch x := cond.(type) {
@@ -4845,9 +4844,9 @@ func ruleQ6(c *Ctx) {
 				continue
 			}
 			onString := false
-			for _, pc := range pathConds(b) {
-				cond, neg := stripNot(pc.If.Cond)
-				if cond == ssa.Value(okEx) && pc.Branch != neg {
+			for _, pf := range pathFacts(b) {
+				cond, neg := pf.Cond, false
+				if cond == ssa.Value(okEx) && pf.Truth != neg {
 					onString = true
 				}
 			}
